@@ -1838,9 +1838,9 @@ def enc_nlri_units(tier):
     return us
 
 
-def enc_attr(ctx, kind, x, code, fields=(), asn4=True, flag=None, renderings=None):
+def enc_attr(ctx, kind, x, code, fields=(), asn4=True, flag=None, renderings=None, neg=None):
     """factory-built attribute -> pack_attribute -> Attribute.unpack: equal attribute, equal fields, same octets, same text"""
-    neg = session(False, asn4)
+    neg = session(False, asn4) if neg is None else neg
     out = B(ctx, x.pack_attribute(neg))
     ctx.cover('encoded')
     parts = split_attributes(out)
@@ -1922,6 +1922,13 @@ def enc_attr_units(tier):
     add('local-preference', simple(5, 'localpref', LocalPreference.from_int, 0, U32))
     add('aigp', simple(26, 'aigp', AIGP.from_int, 0, 2 ** 64 - 1))
     add('atomic-aggregate', lambda ctx: enc_attr(ctx, 'attr-6', AtomicAggregate.make_atomic_aggregate(), 6))
+
+    def aigp_ibgp(ctx):
+        # AIGP is SENT on every IBGP session (AIGP.pack_attribute: aigp or is_ibgp); what is sent on a session decodes on that session
+        neg = S.session('in', local_as=65000, peer_as=65000, families=('ipv4 unicast',))
+        v = ctx.int('value', 0, 2 ** 64 - 1)
+        return enc_attr(ctx, 'attr-26:ibgp-without-the-capability', AIGP.from_int(v), 26, {'aigp': v}, neg=neg)
+    add('aigp/ibgp-without-the-capability', aigp_ibgp, cover=('encoded',))
 
     def octets(code, klass, n=4):
         def f(ctx):
